@@ -427,10 +427,25 @@ func c02HostRulesAlwaysFilter(c *Ctx) {
 	}
 	emptyGuard := func(field string) func(at core.Atom) (bool, bool) {
 		return func(at core.Atom) (bool, bool) {
-			isField := func(v ssa.Value) bool {
-				fr, _, ok := core.LoadedField(core.ResolveCellLoad(v))
-				return ok && fr.Type == "github.com/AdguardTeam/urlfilter.DNSResult" && fr.Field == field
+			// the match's list of that family: the field itself, or a parameter every caller feeds with it
+			var isFieldD func(v ssa.Value, depth int) bool
+			isFieldD = func(v ssa.Value, depth int) bool {
+				v = core.ResolveCellLoad(v)
+				if fr, _, ok := core.LoadedField(v); ok {
+					return fr.Type == "github.com/AdguardTeam/urlfilter.DNSResult" && fr.Field == field
+				}
+				if prm, isPrm := v.(*ssa.Parameter); isPrm && depth < 3 {
+					args := core.ArgsOfParam(prm)
+					for _, a := range args {
+						if !isFieldD(a, depth+1) {
+							return false
+						}
+					}
+					return len(args) > 0
+				}
+				return false
 			}
+			isField := func(v ssa.Value) bool { return isFieldD(v, 0) }
 			// the slice itself compared with nil
 			if (at.Op == token.EQL || at.Op == token.NEQ) && core.IsNilConst(at.Other) && isField(at.Base) {
 				return true, at.Op == token.EQL
